@@ -275,6 +275,15 @@ def run_part(prop, part, tier, replay=None, seed=0, known_file=None, binary=None
         if replay:
             sys.stdout.write(txt)
         if mode == "race":
+            # harness bookkeeping is written for the controlled scheduler (one thread at a time); free-running it can
+            # trip the runtime's own fatal checks, which kill the worker with all its runs: such a worker is run again
+            tries = 1
+            while not os.path.exists(outp) and rc != -9 and abnormal_end(txt)[1] is None and tries < 5:
+                log("NOTE: race pass %s: the free-running worker died in harness code (%s); running it again" % (test, abnormal_end(txt)[0]))
+                tries += 1
+                with open(outp + ".log", "w") as lf:
+                    rc = subprocess.run(cmd, cwd=os.path.join(REPO, pkg), env=env, stdout=lf, stderr=subprocess.STDOUT, preexec_fn=limit).returncode
+                txt = open(outp + ".log").read()
             results.append(race_result(prop, test, outp, rc, txt, os.path.exists(outp) and json.load(open(outp)), int(env["VERIF_FREERUN"])))
         elif os.path.exists(outp):
             results.append(json.load(open(outp)))
@@ -380,6 +389,8 @@ def race_result(prop, test, outp, rc, txt, res, nruns):
     for f in sorted(glob.glob(outp + ".race.*")):
         text += open(f, errors="replace").read()
     sdk, harness_side = {}, 0
+    if os.environ.get("VERIF_KEEP_RACE_LOG"):  # development aid: the worker's output and every race report, kept
+        open(os.environ["VERIF_KEEP_RACE_LOG"] + ".%s.%d" % (test, os.getpid()), "w").write(text)
     for tops, block in parse_races(text):
         if len(tops) < 2 or any(any(h in t for h in HARNESS_MARKS) for t in tops):
             harness_side += 1
@@ -401,10 +412,15 @@ def race_result(prop, test, outp, rc, txt, res, nruns):
             s["choice_nodes"] = 0
             scenarios.append(s)
     else:
-        notes.append("the free-running worker ended abnormally (exit %s); its race reports up to that point were read" % rc)
+        notes.append("the free-running worker ended abnormally (exit %s: %s); its race reports up to that point were read" % (rc, abnormal_end(txt)[0]))
         scenarios.append({"name": scen_name, "execs": 0, "steps": 0, "outcomes": {}, "complete": True})
     viols = []
     kf = known_file()
+    head, frame = abnormal_end(txt) if not res else ("", None)
+    if frame and head.startswith("fatal error: concurrent map"):
+        # the runtime's own detector of unsynchronised map accesses fired with the accessing frame in SDK code:
+        # the same finding as a race report (a worker that dies in harness bookkeeping is re-run, see run_part)
+        sdk.setdefault(head + " at " + re.sub(r"^.*?/(mcp|internal|auth|jsonrpc|oauthex)/", r"\1/", frame).rsplit(":", 1)[0], txt[:4000])
     for key, block in sorted(sdk.items()):
         sig = "data-race " + key
         os.makedirs(os.path.join(VERIF, "replays"), exist_ok=True)
@@ -422,6 +438,28 @@ def race_result(prop, test, outp, rc, txt, res, nruns):
             "extra": {"race_pass_free_runs": sum(s["execs"] for s in scenarios), "race_pass_sdk_races": len(sdk),
                       "race_pass_reports_with_a_harness_side_access_ignored": harness_side,
                       **({"race_pass_notes": "; ".join(notes)} if notes else {})}}
+
+
+def abnormal_end(txt):
+    """Why a free-running worker died: (the panic / fatal line, the first frame of the crashing goroutine outside the
+    Go distribution if that frame is SDK code, else None)."""
+    lines = txt.splitlines()
+    for i, l in enumerate(lines):
+        if l.startswith("panic: ") or l.startswith("fatal error: "):
+            started = False
+            for m in lines[i + 1:i + 120]:
+                m = m.strip()
+                if m.startswith("goroutine "):
+                    if started:
+                        break
+                    started = True
+                if m.startswith("/") and ".go:" in m:
+                    if "/golang.org/toolchain@" in m or "/go/src/" in m or "/veriftools/go" in m:
+                        continue
+                    f = m.split(" ")[0]
+                    return l.strip(), (None if any(h in f for h in HARNESS_MARKS) or "/pkg/mod/" in f else f)
+            return l.strip(), None
+    return "no panic or fatal error in its output", None
 
 
 def classify_crash(txt):
